@@ -187,6 +187,31 @@ Definition histo_snap_ok (c : counter) (n : nat) (snap : bytes) : bool :=
                      | None => false
                      end) kcs.
 
+(* analyze prints `Samples:  n`, `Min:  x.0000`, `Max:  x.0000` (thousands separators) among its lines *)
+Definition line_value (label : bytes) (ls : list bytes) : option bytes :=
+  match filter (starts_with label) ls with
+  | l :: _ => Some (no_commas (ltrim_sp (skipn (List.length label) l)))
+  | [] => None
+  end.
+Definition zmax_list (l : list Z) : Z := fold_left Z.max l (hd 0%Z l).
+Definition zmin_list (l : list Z) : Z := fold_left Z.min l (hd 0%Z l).
+Definition analyze_lines_ok (keys : list bytes) (out : bytes) : bool :=
+  let nums := flat_map (fun k => if is_decimal k then match atoi k with Some z => [z] | None => [] end else []) keys in
+  let all_small := forallb (fun k => implb (is_decimal k) (match atoi k with Some z => (Z.abs z <? 2 ^ 53)%Z | None => false end)) keys in
+  let ls := map rtrim_sp (split_nl [] out) in
+  if negb all_small then true else
+  match line_value (of_str "Samples:") ls with
+  | Some n => bytes_eqb n (zs (Z.of_nat (List.length nums)))
+  | None => false
+  end &&
+  match nums with
+  | [] => true
+  | _ => match line_value (of_str "Min:") ls, line_value (of_str "Max:") ls with
+         | Some mn, Some mx => bytes_eqb mn (zs (zmin_list nums) ++ of_str ".0000") && bytes_eqb mx (zs (zmax_list nums) ++ of_str ".0000")
+         | _, _ => false
+         end
+  end.
+
 Definition C03_check (i : pin) (o : c03out) : bool :=
   let r := ref_of i in
   let keys := map e_key (Extract.s_matches r) in
@@ -214,8 +239,9 @@ Definition C03_check (i : pin) (o : c03out) : bool :=
                match csv_read out with Some rows => reduce_seq_rows_ok keys rows | None => false end
       | 4%N => (code =? exit_code nread 0 matched)%Z &&
                match csv_read out with Some rows => reduce_rows_ok keys rows | None => false end
-      | _ => (* analyze: same text under every variant (above), not a usage error, exit status *)
-               starts_with (of_str "Samples:") out &&
+      | _ => (* analyze: same text under every variant (above), not a usage error, exit status, and the sample
+                 count, minimum and maximum of the numeric keys (exact for integers below 2^53) *)
+               starts_with (of_str "Samples:") out && analyze_lines_ok keys out &&
                (code =? exit_code nread (List.length (filter (fun k => negb (is_decimal k)) keys)) matched)%Z
       end
   | [] => false
